@@ -215,8 +215,9 @@ def loop_result_flag_edges(db, m, rt):
         roots = lb.origins(t["discr"], through=THROUGH_TRY)
         if any(r["k"] == "call" and r["call"].bb == loop_aw.poll.bb for r in roots):
             neg = any(s["k"] == "assign" and s["rv"]["k"] == "un" and s["rv"]["op"] == "Not" and s["lhs"][0] == (op_place(t["discr"]) or [None])[0] for _, s in lb.stmts())
-            te, fe = lb.edge_of(site, "true"), lb.edge_of(site, "false")
-            out.append((fe, te) if neg else (te, fe))
+            kv = c03.loop_result_fields(db)["killed"][1]       # the value of the flag that means `killed`
+            ke, ne = lb.edge_of(site, kv), lb.edge_of(site, other_bool(kv))
+            out.append((ne, ke) if neg else (ke, ne))
     return lb, loop_aw, out
 
 
@@ -261,23 +262,11 @@ def r5(run, db):
         run.check(len(brs) >= 2 and all(b["cont_edge"] and lb.edge_dominates(b["cont_edge"], c.site) for b in brs), "%s|post_stop-on-ok" % rt,
                   "post_stop is dominated by the Continue edges of both `?` on the loop result (no post_stop after a panic or handler error)",
                   "post_stop is reachable on an Err/panic outcome of the loop (%d `?` found)" % len(brs), c.where())
-        # was_killed: bool switch whose discriminant originates from the loop result
-        found = False
-        detail = ""
-        for site, t in lb.switches():
-            if t["dty"] != "bool":
-                continue
-            roots = lb.origins(t["discr"], through=THROUGH_TRY)
-            if any(r["k"] == "call" and r["call"].bb == loop_aw.poll.bb for r in roots):
-                fe = lb.edge_of(site, "false")
-                # through `!was_killed`? handle Not
-                neg = any(s["k"] == "assign" and s["rv"]["k"] == "un" and s["rv"]["op"] == "Not" and s["lhs"][0] == (op_place(t["discr"]) or [None])[0] for _, s in lb.stmts())
-                edge = lb.edge_of(site, "true") if neg else fe
-                if edge and lb.edge_dominates(edge, c.site):
-                    found = True
-                    detail = "switch at %s (negated=%s)" % (lb.where(t.get("l")), neg)
-        run.check(found, "%s|post_stop-not-killed" % rt, "post_stop is dominated by the not-killed edge of the loop result's bool flag: %s" % detail,
-                  "post_stop is not guarded by the was_killed flag of the loop result (it would run after a kill)", c.where())
+        # the killed flag of the loop result: post_stop only on its not-killed edge
+        _lb, _aw, flags_ = loop_result_flag_edges(db, m, rt)
+        found = any(nk and edge_guards(lb, nk, c.site) for k_, nk in flags_)
+        run.check(found, "%s|post_stop-not-killed" % rt, "post_stop is dominated by the not-killed edge of the loop result's flag",
+                  "post_stop is not guarded by the killed flag of the loop result (it would run after a kill)", c.where())
         # inside the loop block: returned flag = step.was_killed, exit test = step.should_exit
         step = [x for x in lp.calls() if x.callee == pb_root.id]
         saw = await_of_call(lp, step[0]) if step else []
@@ -290,14 +279,14 @@ def r5(run, db):
                     p = op_place(o)
                     if p and lp.local_ty(p[0]) == "bool":
                         rts = lp.origins(o, through=THROUGH_TRY)
-                        okflag = any(r["k"] == "call" and r["call"].bb == sp.bb and any(e.endswith(":was_killed") for e in r["proj"] + r["trail"]) for r in rts)
+                        okflag = any(r["k"] == "call" and r["call"].bb == sp.bb and any(e.endswith(":" + c03.loop_result_fields(db)["killed"][0]) for e in r["proj"] + r["trail"]) for r in rts)
             run.check(okflag, "%s|flag-origin" % rt, "the bool returned by the loop is the step result's `was_killed` field", "the loop's bool does not originate from the step's was_killed", lp.where())
             okexit = False
             for site, t in lp.switches():
                 if t["dty"] == "bool":
                     rts = lp.origins(t["discr"], through=THROUGH_TRY)
-                    if any(r["k"] == "call" and r["call"].bb == sp.bb and any(e.endswith(":should_exit") for e in r["proj"] + r["trail"]) for r in rts):
-                        te = lp.edge_of(site, "true")
+                    if any(r["k"] == "call" and r["call"].bb == sp.bb and any(e.endswith(":" + c03.loop_result_fields(db)["exit"][0]) for e in r["proj"] + r["trail"]) for r in rts):
+                        te = lp.edge_of(site, c03.loop_result_fields(db)["exit"][1])
                         rets = [s for s, st in lp.aggregates(adt="std::result::Result", variant="Ok")]
                         okexit = bool(te) and all(lp.edge_dominates(te, s) for s in rets) and bool(rets)
             run.check(okexit, "%s|exit-on-should_exit" % rt, "the loop leaves with Ok only on the true edge of the step result's `should_exit`", None, lp.where())
@@ -317,7 +306,8 @@ def skeleton(db, m, rt):
             if nm in ctors:
                 k = ctors[nm][0][0]
                 cnt[k] = cnt.get(k, 0) + 1
-    sk["proc.results"] = cnt
+    # which kinds of step result the step can produce (not how many syntactic copies of each constructor call there are)
+    sk["proc.results"] = sorted(cnt)
     sk["loop.catch_unwind"] = len([1 for key, (c, t) in m.ff().catch_calls.items() if c.fn.id == lb.id])
     started = [1 for site, s in lb.aggregates(adt="SupervisionEvent", variant="ActorStarted")]
     sk["loop.ActorStarted"] = len(started)
